@@ -119,3 +119,23 @@ PROPS["C14"] = {
         {"pkg": "internal/pkg/finisher", "func": "VerifH_C14_finisher_workers", "replay_tries": 5, "covers": ["stop-while-paused", "stop-while-running", "stopped"]},
     ],
 }
+
+ST = "internal/pkg/stats"
+PROPS["C17"] = {
+    "level": "model_checking",
+    "explanation": "the real counter/rate/mean/rateBucket code and the public wrappers are executed from SSA on 2-3 concurrent goroutines with SYMBOLIC step/sample values; "
+                   "every interleaving of the atomic/mutex operations (sleep-set reduced) is explored and at quiescence the solver proves total == sum of the symbolic steps, mean == sum/count; "
+                   "the status-code wildcard filter is compared with a reference matcher on symbolic strings.",
+    "bounds": "3 goroutines x <=3 operations; step/sample values < 2^40 (no overflow of the 64-bit sums); 2 status-code keys; patterns and codes up to 3 bytes; worker gauges: see C03 stage harnesses",
+    "outside": "reads taken during a burst (the statement speaks of totals after a burst); Prometheus mirrors (nil in the harness); per-second rate window",
+    "assumptions": COMMON_ASSUME + ["sequential consistency at atomic/mutex operations"],
+    "real_pkgs": [STATS],
+    "harnesses": [
+        {"pkg": ST, "func": "VerifH_C17_counter", "replay_tries": 3, "covers": ["burst-done"]},
+        {"pkg": ST, "func": "VerifH_C17_rate_mean", "replay_tries": 3, "covers": ["burst-done"]},
+        {"pkg": ST, "func": "VerifH_C17_mean_get", "covers": ["empty", "non-empty"]},
+        {"pkg": ST, "func": "VerifH_C17_bucket", "replay_tries": 3, "covers": ["burst-done"]},
+        {"pkg": ST, "func": "VerifH_C17_match", "covers": ["matched", "not-matched"]},
+        {"pkg": ST, "func": "VerifH_C17_public", "replay_tries": 3, "covers": ["burst-done"]},
+    ],
+}
